@@ -1,6 +1,6 @@
 (* ShapleyProofs: theorems about Shapley.v (C06, and the sum-exchange lemma shared with C05). *)
 From ICG Require Import Prelude Bits Shapley.
-From Coq Require Import Permutation FMapPositive.
+From Coq Require Import Permutation FMapPositive FinFun.
 Local Open Scope Q_scope.
 
 (* ================================================================== *)
@@ -423,4 +423,314 @@ Proof.
   change (qsum (map (fun i => qsum (map (sh_term n i g) (sh_without n i))) (seq 0 n)))
     with (qsum (map (fun i => qsum (map (sh_term2 n i g g) (sh_without n i))) (seq 0 n))).
   rewrite sh_exchange. pose proof (sh_factQ_pos n) as Hp. field. lra.
+Qed.
+
+(* ================================================================== *)
+(* perms n enumerates exactly the orderings of the players             *)
+(* ================================================================== *)
+Lemma sh_in_inserts x l p :
+  In p (sh_inserts x l) <-> exists l1 l2, l = l1 ++ l2 /\ p = l1 ++ x :: l2.
+Proof.
+  split.
+  - revert p. induction l as [|y r IH]; intros p Hp; simpl in Hp.
+    + destruct Hp as [<-|[]]. exists [], []. split; reflexivity.
+    + destruct Hp as [<-|Hp].
+      * exists [], (y :: r). split; reflexivity.
+      * apply in_map_iff in Hp. destruct Hp as [q [<- Hq]].
+        destruct (IH q Hq) as [l1 [l2 [-> ->]]]. exists (y :: l1), l2. split; reflexivity.
+  - intros [l1 [l2 [-> ->]]]. induction l1 as [|y l1 IH]; simpl.
+    + destruct l2; simpl; left; reflexivity.
+    + right. apply in_map. exact IH.
+Qed.
+
+Lemma sh_perms_of_sound l : forall p, In p (sh_perms_of l) -> Permutation l p.
+Proof.
+  induction l as [|x r IH]; intros p Hp; simpl in Hp.
+  - destruct Hp as [<-|[]]. constructor.
+  - apply in_flat_map in Hp. destruct Hp as [q [Hq Hp]].
+    apply sh_in_inserts in Hp. destruct Hp as [l1 [l2 [-> ->]]].
+    apply Permutation_cons_app. apply IH. exact Hq.
+Qed.
+
+Lemma sh_perms_of_complete l : forall p, Permutation l p -> In p (sh_perms_of l).
+Proof.
+  induction l as [|x r IH]; intros p Hp.
+  - apply Permutation_nil in Hp. subst. left. reflexivity.
+  - assert (Hx : In x p) by (eapply Permutation_in; [exact Hp| left; reflexivity]).
+    apply in_split in Hx. destruct Hx as [l1 [l2 ->]].
+    apply Permutation_cons_app_inv in Hp.
+    cbn [sh_perms_of]. apply in_flat_map. exists (l1 ++ l2). split; [apply IH; exact Hp|].
+    apply sh_in_inserts. exists l1, l2. split; reflexivity.
+Qed.
+
+Lemma sh_NoDup_flat_map {A B} (f : A -> list B) l :
+  NoDup l -> (forall a, In a l -> NoDup (f a)) ->
+  (forall a a' b, In a l -> In a' l -> In b (f a) -> In b (f a') -> a = a') ->
+  NoDup (flat_map f l).
+Proof.
+  induction l as [|a l IH]; intros Hnd Hf Hdis; simpl; [constructor|].
+  inversion Hnd as [|? ? Ha Hl]; subst.
+  apply NoDup_app_intro.
+  - apply Hf. left. reflexivity.
+  - apply IH; [exact Hl| intros; apply Hf; right; assumption|].
+    intros x y b Hx Hy. apply Hdis; right; assumption.
+  - intros b Hb Hb'. apply in_flat_map in Hb'. destruct Hb' as [a' [Ha' Hb']].
+    assert (a = a') by (apply (Hdis a a' b); [left; reflexivity| right; exact Ha'| exact Hb| exact Hb']).
+    subst. contradiction.
+Qed.
+
+Lemma sh_NoDup_inserts x l : ~ In x l -> NoDup (sh_inserts x l).
+Proof.
+  induction l as [|y r IH]; intros Hx; simpl.
+  - constructor; [intros []| constructor].
+  - constructor.
+    + intro Hin. apply in_map_iff in Hin. destruct Hin as [q [E _]]. inversion E. subst. apply Hx. left. reflexivity.
+    + apply Injective_map_NoDup; [intros a b E; inversion E; reflexivity|].
+      apply IH. intro H. apply Hx. right. exact H.
+Qed.
+
+Lemma sh_inserts_remove x l p : ~ In x l -> In p (sh_inserts x l) -> remove Nat.eq_dec x p = l.
+Proof.
+  intros Hx Hp. apply sh_in_inserts in Hp. destruct Hp as [l1 [l2 [-> ->]]].
+  rewrite remove_app, remove_cons, <- remove_app. apply notin_remove. exact Hx.
+Qed.
+
+Lemma sh_NoDup_perms_of l : NoDup l -> NoDup (sh_perms_of l).
+Proof.
+  induction l as [|x r IH]; intros Hnd; simpl.
+  - constructor; [intros []| constructor].
+  - inversion Hnd as [|? ? Hx Hr]; subst.
+    assert (Hnotin : forall q, In q (sh_perms_of r) -> ~ In x q).
+    { intros q Hq Hin. apply Hx. apply sh_perms_of_sound in Hq.
+      eapply Permutation_in; [apply Permutation_sym; exact Hq| exact Hin]. }
+    apply sh_NoDup_flat_map.
+    + apply IH. exact Hr.
+    + intros q Hq. apply sh_NoDup_inserts. apply Hnotin. exact Hq.
+    + intros q q' p Hq Hq' Hp Hp'.
+      rewrite <- (sh_inserts_remove x q p (Hnotin q Hq) Hp).
+      apply (sh_inserts_remove x q' p (Hnotin q' Hq') Hp').
+Qed.
+
+Theorem sh_perms_spec n p : In p (sh_perms n) <-> Permutation (seq 0 n) p.
+Proof. unfold sh_perms. split; [apply sh_perms_of_sound| apply sh_perms_of_complete]. Qed.
+
+Theorem sh_perms_NoDup n : NoDup (sh_perms n).
+Proof. apply sh_NoDup_perms_of. apply seq_NoDup. Qed.
+
+Lemma sh_inserts_length x l : length (sh_inserts x l) = S (length l).
+Proof. induction l as [|y r IH]; simpl; [reflexivity|]. rewrite map_length, IH. reflexivity. Qed.
+
+Lemma sh_flat_map_length_const {A B} (f : A -> list B) k l :
+  (forall a, In a l -> length (f a) = k) -> length (flat_map f l) = (length l * k)%nat.
+Proof.
+  induction l as [|a l IH]; intros H; simpl; [reflexivity|].
+  rewrite app_length, (H a) by (left; reflexivity). rewrite IH by (intros; apply H; right; assumption). lia.
+Qed.
+
+Lemma sh_perms_of_length l : Z.of_nat (length (sh_perms_of l)) = sh_fact (length l).
+Proof.
+  induction l as [|x r IH]; [reflexivity|].
+  cbn [sh_perms_of length]. rewrite (sh_flat_map_length_const _ (S (length r))).
+  - rewrite sh_fact_S, <- IH. lia.
+  - intros q Hq. rewrite sh_inserts_length. f_equal. symmetry. apply Permutation_length.
+    apply sh_perms_of_sound. exact Hq.
+Qed.
+
+(* there are n! orderings: dividing the sum by n! is taking the average *)
+Theorem sh_perms_length n : Z.of_nat (length (sh_perms n)) = sh_fact n.
+Proof. unfold sh_perms. rewrite sh_perms_of_length, seq_length. reflexivity. Qed.
+
+(* ================================================================== *)
+(* linear forms and the reflection principle                           *)
+(* ================================================================== *)
+Lemma sh_eval_app g l1 l2 : sh_eval g (l1 ++ l2) == sh_eval g l1 + sh_eval g l2.
+Proof. unfold sh_eval. rewrite map_app. apply qsum_app. Qed.
+
+Lemma sh_eval_flat_map {A} g (f : A -> sh_lf) l :
+  sh_eval g (flat_map f l) == qsum (map (fun x => sh_eval g (f x)) l).
+Proof.
+  induction l as [|x l IH]; simpl; [reflexivity|]. rewrite sh_eval_app, IH. reflexivity.
+Qed.
+
+Lemma sh_player_as_lf n i g :
+  sh_player n i g == sh_eval g (sh_player_lf n i) / inject_Z (sh_fact n).
+Proof.
+  rewrite sh_player_eq. apply Qdiv_comp; [|reflexivity].
+  unfold sh_player_lf. rewrite sh_eval_flat_map. apply qsum_map_ext. intros S _.
+  unfold sh_term, sh_eval. cbn [map qsum fst snd]. rewrite inject_Z_opp. ring.
+Qed.
+
+Lemma sh_perm_avg_as_lf n i g :
+  sh_perm_avg n i g == sh_eval g (sh_perm_lf n i) / inject_Z (sh_fact n).
+Proof.
+  unfold sh_perm_avg. apply Qdiv_comp; [|reflexivity].
+  unfold sh_perm_lf. rewrite sh_eval_flat_map. apply qsum_map_ext. intros p _.
+  unfold sh_marg, sh_eval. cbn [map qsum fst snd]. change (inject_Z 1) with 1. change (inject_Z (-1)) with (-(1)). ring.
+Qed.
+
+Lemma sh_eval_coef n g l :
+  sh_lf_inrange n l = true ->
+  sh_eval g l == qsum (map (fun S => inject_Z (sh_coef l S) * g S) (alln n)).
+Proof.
+  induction l as [|[c T] l IH]; intros Hr.
+  - unfold sh_eval. cbn [map qsum sh_coef]. symmetry. apply qsum_map_zero. intros; change (inject_Z 0) with 0; ring.
+  - unfold sh_lf_inrange in Hr. cbn [forallb snd] in Hr. apply andb_true_iff in Hr. destruct Hr as [HT Hr].
+    apply N.ltb_lt in HT.
+    assert (Hin : In T (alln n)) by (apply in_alln, bounded_lt; exact HT).
+    unfold sh_eval in *. cbn [map qsum fst snd]. rewrite (IH Hr).
+    rewrite <- (sh_qsum_pick T (inject_Z c * g T) (alln n) (NoDup_alln n) Hin).
+    rewrite <- qsum_map_add. apply qsum_map_ext. intros S _. cbn [sh_coef].
+    rewrite inject_Z_plus. destruct (N.eqb_spec T S) as [->|Hne].
+    + rewrite N.eqb_refl. ring.
+    + destruct (N.eqb_spec S T) as [E|_]; [congruence|]. change (inject_Z 0) with 0. ring.
+Qed.
+
+Lemma sh_zlist_eqb_eq a : forall b, sh_zlist_eqb a b = true -> a = b.
+Proof.
+  induction a as [|x a IH]; intros [|y b] H; simpl in H; try discriminate; [reflexivity|].
+  apply andb_true_iff in H. destruct H as [H1 H2]. apply Z.eqb_eq in H1. subst. f_equal. apply IH. exact H2.
+Qed.
+
+(* the reflection principle: equal coefficient vectors => equal on every game *)
+Theorem sh_eval_ext n l1 l2 :
+  sh_lf_eqb n l1 l2 = true -> forall g, sh_eval g l1 == sh_eval g l2.
+Proof.
+  unfold sh_lf_eqb. intros H g. apply andb_true_iff in H. destruct H as [H H3].
+  apply andb_true_iff in H. destruct H as [H1 H2].
+  rewrite (sh_eval_coef n g l1 H1), (sh_eval_coef n g l2 H2).
+  apply sh_zlist_eqb_eq in H3. unfold sh_coeffs in H3.
+  apply qsum_map_ext. intros S HS. rewrite (ext_in_map H3 S HS). reflexivity.
+Qed.
+
+Theorem sh_check_perm_avg_sound n :
+  sh_check_perm_avg n = true -> forall i g, (i < n)%nat -> sh_player n i g == sh_perm_avg n i g.
+Proof.
+  unfold sh_check_perm_avg. intros H i g Hi. rewrite forallb_forall in H.
+  rewrite sh_player_as_lf, sh_perm_avg_as_lf. apply Qdiv_comp; [|reflexivity].
+  apply (sh_eval_ext n). apply H. apply in_seq. lia.
+Qed.
+
+Lemma sh_check_perm_avg_1 : sh_check_perm_avg 1 = true. Proof. vm_compute. reflexivity. Qed.
+Lemma sh_check_perm_avg_2 : sh_check_perm_avg 2 = true. Proof. vm_compute. reflexivity. Qed.
+Lemma sh_check_perm_avg_3 : sh_check_perm_avg 3 = true. Proof. vm_compute. reflexivity. Qed.
+Lemma sh_check_perm_avg_4 : sh_check_perm_avg 4 = true. Proof. vm_compute. reflexivity. Qed.
+Lemma sh_check_perm_avg_5 : sh_check_perm_avg 5 = true. Proof. vm_compute. reflexivity. Qed.
+Lemma sh_check_perm_avg_6 : sh_check_perm_avg 6 = true. Proof. vm_compute. reflexivity. Qed.
+Lemma sh_check_perm_avg_7 : sh_check_perm_avg 7 = true. Proof. vm_compute. reflexivity. Qed.
+
+(* for EVERY game g, for each player count 1..7 *)
+Theorem sh_is_perm_avg n i g :
+  (1 <= n <= 7)%nat -> (i < n)%nat -> sh_player n i g == sh_perm_avg n i g.
+Proof.
+  intros Hn Hi.
+  assert (H : sh_check_perm_avg n = true).
+  { destruct n as [|[|[|[|[|[|[|[|n]]]]]]]]; try lia.
+    - exact sh_check_perm_avg_1. - exact sh_check_perm_avg_2. - exact sh_check_perm_avg_3.
+    - exact sh_check_perm_avg_4. - exact sh_check_perm_avg_5. - exact sh_check_perm_avg_6.
+    - exact sh_check_perm_avg_7. }
+  apply sh_check_perm_avg_sound; assumption.
+Qed.
+
+(* ================================================================== *)
+(* relabelling                                                         *)
+(* ================================================================== *)
+Lemma sh_tb_setbit S j b i : tb (sh_setbit S j b) i = if Nat.eqb i j then b else tb S i.
+Proof.
+  unfold sh_setbit. destruct b.
+  - rewrite tb_lor, tb_single. rewrite (Nat.eqb_sym j i). destruct (Nat.eqb i j); [apply orb_true_r| apply orb_false_r].
+  - rewrite tb_ldiff, tb_single. rewrite (Nat.eqb_sym j i). destruct (Nat.eqb i j); [apply andb_false_r| apply andb_true_r].
+Qed.
+
+(* sh_swapm j k S is the image of the coalition S under the transposition (j k) of the players *)
+Lemma sh_tb_swapm j k S i : j <> k -> tb (sh_swapm j k S) i = tb S (sh_swapp j k i).
+Proof.
+  intros Hjk. unfold sh_swapm, sh_swapp. rewrite !sh_tb_setbit.
+  destruct (Nat.eqb_spec i k) as [->|Hik].
+  - destruct (Nat.eqb_spec k j); [congruence| reflexivity].
+  - destruct (Nat.eqb_spec i j); reflexivity.
+Qed.
+
+Lemma sh_swapp_invol j k i : j <> k -> sh_swapp j k (sh_swapp j k i) = i.
+Proof.
+  intros Hjk. unfold sh_swapp.
+  destruct (Nat.eqb_spec i j) as [->|Hij].
+  - destruct (Nat.eqb_spec k j); [congruence|]. rewrite Nat.eqb_refl. reflexivity.
+  - destruct (Nat.eqb_spec i k) as [->|Hik].
+    + rewrite Nat.eqb_refl. reflexivity.
+    + destruct (Nat.eqb_spec i j); [congruence|]. destruct (Nat.eqb_spec i k); [congruence| reflexivity].
+Qed.
+
+Lemma sh_swapm_invol j k S : j <> k -> sh_swapm j k (sh_swapm j k S) = S.
+Proof.
+  intros Hjk. apply bits_inj_nat. intro i. rewrite !sh_tb_swapm by exact Hjk.
+  rewrite sh_swapp_invol by exact Hjk. reflexivity.
+Qed.
+
+Lemma sh_swapp_lt j n i : (S j < n)%nat -> (i < n)%nat -> (sh_swapp j (S j) i < n)%nat.
+Proof. intros Hj Hi. unfold sh_swapp. destruct (Nat.eqb i j); [lia|]. destruct (Nat.eqb i (S j)); lia. Qed.
+
+Lemma sh_eval_lf_map g f l : sh_eval (fun S => g (f S)) l == sh_eval g (sh_lf_map f l).
+Proof. unfold sh_eval, sh_lf_map. rewrite map_map. reflexivity. Qed.
+
+Theorem sh_check_relabel_sound n :
+  sh_check_relabel n = true -> forall j i g, (S j < n)%nat -> (i < n)%nat ->
+  sh_player n (sh_swapp j (S j) i) (fun s => g (sh_swapm j (S j) s)) == sh_player n i g.
+Proof.
+  unfold sh_check_relabel. intros H j i g Hj Hi. rewrite forallb_forall in H.
+  assert (Hjin : In j (seq 0 (n - 1))) by (apply in_seq; lia).
+  specialize (H j Hjin). rewrite forallb_forall in H.
+  assert (Hiin : In i (seq 0 n)) by (apply in_seq; lia). specialize (H i Hiin).
+  rewrite !sh_player_as_lf. apply Qdiv_comp; [|reflexivity].
+  rewrite (sh_eval_lf_map g (sh_swapm j (S j))). apply (sh_eval_ext n). exact H.
+Qed.
+
+Lemma sh_check_relabel_2 : sh_check_relabel 2 = true. Proof. vm_compute. reflexivity. Qed.
+Lemma sh_check_relabel_3 : sh_check_relabel 3 = true. Proof. vm_compute. reflexivity. Qed.
+Lemma sh_check_relabel_4 : sh_check_relabel 4 = true. Proof. vm_compute. reflexivity. Qed.
+Lemma sh_check_relabel_5 : sh_check_relabel 5 = true. Proof. vm_compute. reflexivity. Qed.
+Lemma sh_check_relabel_6 : sh_check_relabel 6 = true. Proof. vm_compute. reflexivity. Qed.
+Lemma sh_check_relabel_7 : sh_check_relabel 7 = true. Proof. vm_compute. reflexivity. Qed.
+
+Theorem sh_relabel_adjacent n j i g :
+  (2 <= n <= 7)%nat -> (S j < n)%nat -> (i < n)%nat ->
+  sh_player n (sh_swapp j (S j) i) (fun s => g (sh_swapm j (S j) s)) == sh_player n i g.
+Proof.
+  intros Hn Hj Hi.
+  assert (H : sh_check_relabel n = true).
+  { destruct n as [|[|[|[|[|[|[|[|n]]]]]]]]; try lia.
+    - exact sh_check_relabel_2. - exact sh_check_relabel_3. - exact sh_check_relabel_4.
+    - exact sh_check_relabel_5. - exact sh_check_relabel_6. - exact sh_check_relabel_7. }
+  apply sh_check_relabel_sound; assumption.
+Qed.
+
+(* closure under composition: any product of adjacent transpositions *)
+Lemma sh_actp_lt n js i : Forall (fun j => (S j < n)%nat) js -> (i < n)%nat -> (sh_actp js i < n)%nat.
+Proof.
+  induction 1 as [|j r Hj Hr IH]; intros Hi; simpl; [exact Hi|]. apply sh_swapp_lt; auto.
+Qed.
+
+Theorem sh_relabel_products n js i g :
+  (2 <= n <= 7)%nat -> Forall (fun j => (S j < n)%nat) js -> (i < n)%nat ->
+  sh_player n (sh_actp js i) (sh_relabel js g) == sh_player n i g.
+Proof.
+  intros Hn Hjs Hi. induction Hjs as [|j r Hj Hr IH]; simpl; [reflexivity|].
+  rewrite (sh_relabel_adjacent n j (sh_actp r i) (sh_relabel r g) Hn Hj (sh_actp_lt n r i Hr Hi)).
+  exact IH.
+Qed.
+
+(* what sh_actp / sh_relabel mean: with pi = sh_actp js on players and pi(S) = sh_actm js S on coalitions,
+   i in S <-> pi i in pi(S), and the relabelled game gives pi(S) the value g S *)
+Fixpoint sh_actm (js : list nat) (s : N) : N :=
+  match js with [] => s | j :: r => sh_swapm j (S j) (sh_actm r s) end.
+
+Lemma sh_actm_mem js s i : tb (sh_actm js s) (sh_actp js i) = tb s i.
+Proof.
+  induction js as [|j r IH]; simpl; [reflexivity|].
+  rewrite sh_tb_swapm by lia. rewrite sh_swapp_invol by lia. exact IH.
+Qed.
+
+Lemma sh_relabel_actm js g s : sh_relabel js g (sh_actm js s) = g s.
+Proof.
+  revert s. induction js as [|j r IH]; intros s; simpl; [reflexivity|].
+  rewrite sh_swapm_invol by lia. apply IH.
 Qed.
